@@ -184,6 +184,8 @@ const FD_MAX: usize = 8192;
 const FD_ZERO: AtomicU32 = AtomicU32::new(0);
 /// fd -> file id + 1 (0 = not traced).
 static FD_MAP: [AtomicU32; FD_MAX] = [FD_ZERO; FD_MAX];
+/// fd -> 1 if the descriptor was opened with O_SYNC / O_DSYNC (every write is its own sync).
+static FD_SYNC: [AtomicU32; FD_MAX] = [FD_ZERO; FD_MAX];
 
 fn lock() -> MutexGuard<'static, Option<Box<Ctl>>> {
     CTL.lock().unwrap_or_else(|e| e.into_inner())
@@ -554,6 +556,7 @@ unsafe fn do_open(dirfd: c_int, path: *const c_char, flags: c_int, mode: mode_t)
                 }
                 if fd >= 0 && (fd as usize) < FD_MAX {
                     FD_MAP[fd as usize].store(id + 1, Ordering::Relaxed);
+                    FD_SYNC[fd as usize].store((flags & (libc::O_SYNC | libc::O_DSYNC) != 0) as u32, Ordering::Relaxed);
                 }
             }
         }
@@ -586,6 +589,7 @@ pub unsafe extern "C" fn openat(dirfd: c_int, path: *const c_char, flags: c_int,
 pub unsafe extern "C" fn close(fd: c_int) -> c_int {
     if fd >= 0 && (fd as usize) < FD_MAX {
         FD_MAP[fd as usize].store(0, Ordering::Relaxed);
+        FD_SYNC[fd as usize].store(0, Ordering::Relaxed);
     }
     libc::syscall(libc::SYS_close, fd) as c_int
 }
@@ -661,6 +665,10 @@ unsafe fn do_write(fd: c_int, file: FileId, buf: *const c_void, n: size_t, at: O
         };
         let data = std::slice::from_raw_parts(buf as *const u8, r as usize).to_vec();
         c.trace.push(Ev::Write { file, off, data, tid });
+        // a descriptor opened with O_SYNC / O_DSYNC: the write returns when the data is durable
+        if fd >= 0 && (fd as usize) < FD_MAX && FD_SYNC[fd as usize].load(Ordering::Relaxed) != 0 {
+            c.trace.push(Ev::Sync { file, ok: true, tid });
+        }
     } else {
         let saved = *libc::__errno_location();
         c.trace.push(Ev::WriteFail { file, tid });
